@@ -14,7 +14,7 @@ class SharedTimedMutex : public SharedMutex {
 
   template <typename Rep, typename Period>
   bool try_lock_for(const std::chrono::duration<Rep, Period>& timeout_duration) {
-    return TimedWaitHelper(timeout_duration, true);
+    return TimedWaitHelper(SystemClock::now() + timeout_duration, true);
   }
 
   template <typename Clock, typename Duration>
@@ -24,7 +24,7 @@ class SharedTimedMutex : public SharedMutex {
 
   template <typename Rep, typename Period>
   bool try_lock_shared_for(const std::chrono::duration<Rep, Period>& timeout_duration) {
-    return TimedWaitHelper(timeout_duration, false);
+    return TimedWaitHelper(SystemClock::now() + timeout_duration, false);
   }
 
   template <typename Clock, typename Duration>
@@ -35,19 +35,18 @@ class SharedTimedMutex : public SharedMutex {
  private:
   template <typename Timeout>
   bool TimedWaitHelper(const Timeout& timeout, bool exclusive) {
-    bool r = true;
-    if (_occupied && (exclusive || _exclusive_mode)) {
-      if (exclusive) {
-        r = _exclusive_queue.Wait(timeout) == WaitStatus::Ready;
-      } else {
-        r = _shared_queue.Wait(timeout) == WaitStatus::Ready;
+    while (_occupied && (exclusive || _exclusive_mode)) {
+      auto& queue = exclusive ? _exclusive_queue : _shared_queue;
+      if (queue.Wait(timeout) != WaitStatus::Ready) {
+        return false;
       }
     }
-    YACLIB_DEBUG(r && _occupied && (exclusive || _exclusive_mode), "about to be locked twice and not in a good way");
-    if (r) {
+    if (exclusive) {
+      LockHelper();
+    } else {
       SharedLockHelper();
     }
-    return r;
+    return true;
   }
 };
 
